@@ -4,6 +4,7 @@ package main
 
 import (
 	"encoding/json"
+	"hash/fnv"
 	"flag"
 	"fmt"
 	"os"
@@ -323,8 +324,11 @@ func sanitize(s string) string {
 		}
 	}
 	out := b.String()
-	if len(out) > 150 {
-		out = out[:150]
+	if len(out) > 140 {
+		// keep names distinct after truncation
+		h := fnv.New32a()
+		h.Write([]byte(s))
+		out = fmt.Sprintf("%s_%08x", out[:140], h.Sum32())
 	}
 	return out
 }
